@@ -1,5 +1,6 @@
 import MJ.Proofs.LocDebug
 import MJ.Proofs.LocTables
+import MJ.Proofs.LocCodegen
 /-!
 # C14 — errors point at the right template line; reported ranges are valid slices
 
@@ -379,6 +380,73 @@ theorem caret_error (src : List Char) (a : Nat) :
   congr 2
   unfold satInc
   split <;> omega
+
+/-! ## 6. the code generator: which line / span an instruction gets -/
+
+/-- `pop_span` only pops: the current line is the one set by the last `set_line` / `push_span` of
+    the script, whatever was pushed and popped in between -/
+theorem cg_line_after (ops : List CgOp) (c : Cg) : (cgRun ops c).currentLine = lineAfter ops c.currentLine :=
+  (cgRun_fields ops c).1
+
+/-- a properly nested script leaves the span stack as it found it -/
+theorem cg_balanced_keeps_stack (ops : List CgOp) (h : Balanced ops) (c : Cg) :
+    (cgRun ops c).spanStack = c.spanStack := cgRun_stack_balanced ops h c
+
+/-- A statement that (after any prefix `pre` of the compilation) runs a properly nested script
+    `bal` — e.g. `set_line(tag)`, then the compilation of its argument expression with all its
+    `push_span`/`pop_span` pairs — and then emits an instruction with `add`: that instruction
+    reports the line set by the last `set_line`/`push_span` of `bal` (of `pre` if `bal` sets none),
+    and the span that was innermost *before* the statement if that span starts on that very line,
+    otherwise no span.  Spans pushed and popped inside `bal` do not leak into it. -/
+theorem add_uses_statement_line (pre bal : List CgOp) (hb : Balanced bal)
+    (hlen : (pre ++ bal).length + 1 < 4294967296) :
+    ((cgRun (pre ++ bal ++ [.add]) Cg.new).instrs.getLine (cgRun (pre ++ bal) Cg.new).instrs.len =
+      .ok (some (lineAfter bal (cgRun pre Cg.new).currentLine))) ∧
+    ((cgRun (pre ++ bal ++ [.add]) Cg.new).instrs.getSpan (cgRun (pre ++ bal) Cg.new).instrs.len =
+      .ok (match (cgRun pre Cg.new).spanStack with
+           | sp :: _ => if sp.startLine = lineAfter bal (cgRun pre Cg.new).currentLine then sp.nonDefault else none
+           | [] => none)) := by
+  have hstack : (cgRun (pre ++ bal) Cg.new).spanStack = (cgRun pre Cg.new).spanStack := by
+    rw [cgRun_append]; exact cgRun_stack_balanced bal hb _
+  have hline : (cgRun (pre ++ bal) Cg.new).currentLine = lineAfter bal (cgRun pre Cg.new).currentLine := by
+    rw [cgRun_append]; exact (cgRun_fields bal _).1
+  generalize hL : lineAfter bal (cgRun pre Cg.new).currentLine = L at *
+  generalize hA : cgAdds 0 [] (pre ++ bal) = A
+  have hAlen : A.length ≤ (pre ++ bal).length := by rw [← hA]; exact cgAdds_length_le _ _ _
+  have hinstr : (cgRun (pre ++ bal) Cg.new).instrs = addAll A := by rw [cgRun_new_instrs, hA]
+  have hfinal : (cgRun (pre ++ bal ++ [.add]) Cg.new).instrs =
+      addAll (A ++ [addOf L (cgRun pre Cg.new).spanStack]) := by
+    rw [cgRun_append]
+    show ((cgRun (pre ++ bal) Cg.new).step .add).instrs = _
+    simp only [Cg.step, Cg.add_eq, hinstr, hstack, hline]
+    simp [addAll, List.foldl_append]
+  have hpc : (cgRun (pre ++ bal) Cg.new).instrs.len = A.length := by
+    rw [hinstr]; exact (inv_addAll A (by omega)).len
+  rw [hfinal, hpc]
+  generalize (cgRun pre Cg.new).spanStack = S
+  have hl2 : ∀ a : Add, (A ++ [a]).length < 4294967296 := by intro a; simp; omega
+  have hget : ∀ a : Add, (A ++ [a])[A.length]? = some a := by intro a; simp
+  cases S with
+  | nil =>
+    simp only [addOf]
+    exact (lookup_at_located _ (hl2 _) A.length).1 L (hget _)
+  | cons sp st =>
+    simp only [addOf]
+    by_cases hsp : sp.startLine = L
+    · rw [if_pos hsp, if_pos hsp]
+      have := (lookup_at_located _ (hl2 _) A.length).2 sp (hget _)
+      rw [hsp] at this
+      exact this
+    · rw [if_neg hsp, if_neg hsp]
+      exact (lookup_at_located _ (hl2 _) A.length).1 L (hget _)
+
+/-- `{% call m() %}` on line 1 (span still pushed), then on line 3 `{% autoescape cfg.mode %}`:
+    `set_line(3)`, `cfg.mode` with its push/pop, `add(PushAutoEscape)` — the instruction is on line 3
+    and does not inherit the span of `m()` -/
+example : ((cgRun [.pushSpan ⟨1, 8, 8, 1, 11, 11⟩, .setLine 3, .setLine 3, .pushSpan ⟨3, 14, 40, 3, 22, 48⟩,
+      .setLine 3, .add, .add, .popSpan, .add] Cg.new).instrs.getLine 2 = .ok (some 3)) ∧
+    ((cgRun [.pushSpan ⟨1, 8, 8, 1, 11, 11⟩, .setLine 3, .setLine 3, .pushSpan ⟨3, 14, 40, 3, 22, 48⟩,
+      .setLine 3, .add, .add, .popSpan, .add] Cg.new).instrs.getSpan 2 = .ok none) := by decide
 
 /-! ## the full statement -/
 
